@@ -357,7 +357,36 @@ def verdictEntry (s : S α) (w : W α) (ent : Entry α) (t : List String) : Stri
         (!noPrec || (match find? callerList pc.1.name with
           | some q => !q.violates x
           | none => true)))
-  if !pts.all okPt then "FAIL:probes_feasible" else "ok"
+  if !pts.all okPt then "FAIL:probes_feasible" else
+  -- one-sided fall-back: a selected variable with room for the probes on one side at least gets its
+  -- derivatives (no NaN marker, no exception) — judged when no precision is involved
+  let callerNoPrec := callerList.all (fun p => eqb p.prec zero)
+  if !noPrec || !callerNoPrec || !w.c1 || fe.isSome || tooBig (f (values fnB.params)) then "ok" else
+  let two : α := ofInt 2
+  let feasibleAt (n : Name) (x : α) : Bool :=
+    (match find? fnB.params n with
+      | some p => !p.violates x
+      | none => false) &&
+    (match find? callerList n with
+      | some q => !q.violates x
+      | none => false)
+  let d1 := section_ t "D1" markers
+  let wfSel := w.vars.all (fun v => has w.fn.params v) && decide (w.vars.eraseDups.length = w.vars.length)
+  if !wfSel then "ok" else
+  let sel := (List.zip (List.range w.vars.length) w.vars).filter (fun (iv : Nat × Nat) => has callerList iv.2)
+  let room (iv : Nat × Nat) : Bool :=
+    match find? fnB.params iv.2 with
+    | none => false
+    | some b =>
+      let x := b.value
+      let hh := (one + abs x) * w.h
+      -- the probes never leave [x - k*hh, x + k*hh]; intervals are convex, so end points suffice
+      let k : α := if w.scheme == .five then two else one
+      (feasibleAt iv.2 (x - k * hh) || feasibleAt iv.2 (x + k * hh)) && gtb w.h zero
+  let bad :=
+    if implOk then sel.any (fun iv => room iv && d1.getD iv.1 "nan" == "nan")
+    else !(w.scheme == .three && w.cx) && sel.all room
+  if bad then "FAIL:one_sided_fallback" else "ok"
 
 /-- delegation: a derivative of a non-selected variable (or with numerical derivatives switched
 off) is the wrapped function's analytical derivative at the current point -/
